@@ -929,9 +929,10 @@ def log_call(
         if "self" in callargs:
             callargs.pop("self")
 
-        # Filter arguments to log, if necessary:
+        # Filter arguments to log, if necessary (self is never logged, even if
+        # it was listed):
         if include_args is not None:
-            callargs = {k: callargs[k] for k in include_args}
+            callargs = {k: callargs[k] for k in include_args if k in callargs}
 
         # Like start_action(), but the arguments are passed as a dictionary so
         # that parameters called e.g. "logger" can't be mistaken for
